@@ -9,7 +9,8 @@
     `s.computeIsotropicFunctionAndDerivative<es>(f, df, eps)` and the free functions of the same names: with the
     eigen-solver's result as uninterpreted symbols `vp_i(s)`, `m_ij(s)` they are that computation on the solver's
     result, and the value returned by the And-Derivative variants is `M diag(f vp) Mᵀ` (`N*_w_d_*`).
-  Hence every theorem of PropsDeriv.lean transfers to these entry points (e.g. `N3_dfun_dist_dk`).
+  Hence every theorem of PropsDeriv.lean transfers to these entry points (rewrite with `N*_dfun_*`, then apply
+  the table theorem of the values overload).
   The proofs are syntactic: after unfolding, both sides are the same expression.
 -/
 import TfelVerif.Common.M3
@@ -22,7 +23,6 @@ import TfelVerif.C05.GenD3p02
 import TfelVerif.C05.GenD3p12
 import TfelVerif.C05.GenF
 import TfelVerif.C05.GenW
-import TfelVerif.C05.PropsDeriv
 import Mathlib.Tactic.Tauto
 
 namespace TfelVerif.C05.PropsWrap
@@ -221,20 +221,5 @@ theorem N3_w_d_p12_path_iff {F : Type} [Field F] [LinearOrder F] (d d3 : F) (gn 
       ↔ Gen.N3_dval_p12_path d d3 gn m00 m01 m02 m10 m11 m12 m20 m21 m22 (gn.call "vp0" [s0, s1, s2, s3, s4, s5]) (gn.call "vp1" [s0, s1, s2, s3, s4, s5]) (gn.call "vp2" [s0, s1, s2, s3, s4, s5]) f0 f1 f2 e0 e1 e2 eps := by
   simp only [Gen.N3_w_d_p12_path, Gen.N3_dval_p12_path]
   constructor <;> intro h <;> tauto
-
-/-- example of transfer: the functions overload on the `dist` branch acts as the Daleckii–Krein form with
-`Θ_ii = f'(λ_i)`, `Θ_ij = (f λ_i − f λ_j)/(λ_i − λ_j)` -/
-theorem N3_dfun_dist_dk [CharZero K] (hc : c * c = 2) (m00 m01 m02 m10 m11 m12 m20 m21 m22 l0 l1 l2 eps
-    h00 h11 h22 h01 h02 h12 g00 g11 g22 g01 g02 g12 : K) :
-    Gen.N3_dfun_dist_a c c3 fn m00 m01 m02 m10 m11 m12 m20 m21 m22 l0 l1 l2 eps
-        h00 h11 h22 (c * h01) (c * h02) (c * h12) g00 g11 g22 (c * g01) (c * g02) (c * g12)
-      = dot6 (M3.mandel3 c (M3.sym g00 g11 g22 g01 g02 g12))
-          (M3.mandel3 c (dkAct ⟨m00, m01, m02, m10, m11, m12, m20, m21, m22⟩
-            (M3.sym (fn.call "df" [l0]) (fn.call "df" [l1]) (fn.call "df" [l2])
-              ((fn.call "f" [l0] - fn.call "f" [l1]) / (l0 - l1)) ((fn.call "f" [l0] - fn.call "f" [l2]) / (l0 - l2))
-              ((fn.call "f" [l1] - fn.call "f" [l2]) / (l1 - l2)))
-            (M3.sym h00 h11 h22 h01 h02 h12))) := by
-  rw [N3_dfun_dist, ← PropsDeriv.N3_dval_dist c c3 fn hc (eps := eps)]
-  simp only [M3.mandel3, M3.sym]
 
 end TfelVerif.C05.PropsWrap
